@@ -17,26 +17,34 @@ DICT_ASSUME = [
 ]
 
 
-def strata(kinds, classes):
+def dict_plan(kinds, small, large):
+    """List of (stratum, cases, rapidcheck max_size).  Strata = kind x size class.  Kinds that are only
+    explored on part of the domain because of a known finding get their budget where they work."""
     import os
     only = os.environ.get("VERIF_KINDS")   # development aid: restrict a run to some kinds
-    if only:
-        kinds = [k for k in kinds if KINDS[k] in only.split(",")]
-    return [k * NCLASS + c for k in kinds for c in classes]
+    plan = []
+    for k in kinds:
+        name = KINDS[k]
+        if only and name not in only.split(","):
+            continue
+        if name == "RPHTFC" and not os.environ.get("VERIF_ALLK"):          # F04 / F05: whole kind excluded, keep a token presence
+            plan.append((k * NCLASS + 2, 4, 120))
+            continue
+        for c in (0, 1, 2, 3):
+            plan.append((k * NCLASS + c, small, 260))
+        for c in (4, 5):
+            if large:
+                plan.append((k * NCLASS + c, large, 420))
+    # longest jobs first
+    plan.sort(key=lambda t: -(t[0] % NCLASS))
+    return plan
 
 
-def dict_stages(kinds, quick_small, quick_large, binary="dict_rc", floors=None, nontrivial_floor=20, thorough_mult=12,
-                large_classes=(4, 5), small_classes=(0, 1, 2, 3), size_small=260, size_large=420):
+def dict_stages(kinds, quick_small, quick_large, binary="dict_rc", floors=None, nontrivial_floor=20, thorough_mult=12):
     def f(tier):
         mult = thorough_mult if tier == "thorough" else 1
-        st = [
-            {"name": "small", "binary": binary, "strata": strata(kinds, small_classes), "cases": quick_small * mult,
-             "size": size_small, "label_floors": floors or {}, "nontrivial_floor": nontrivial_floor},
-        ]
-        if quick_large:
-            st.append({"name": "large", "binary": binary, "strata": strata(kinds, large_classes),
-                       "cases": quick_large * mult, "size": size_large, "nontrivial_floor": max(2, nontrivial_floor // 4)})
-        return st
+        return [{"name": "dict", "binary": binary, "plan": dict_plan(kinds, quick_small * mult, quick_large * mult),
+                 "label_floors": floors or {}, "nontrivial_floor": nontrivial_floor}]
     return f
 
 
@@ -79,8 +87,7 @@ SPECS = {
         "assumptions": DICT_ASSUME,
     },
     "C05": {
-        "stages": dict_stages(SUBSTR, 120, 20, floors={"substr:repeated_in_member": 30, "substr:absent": 30},
-                              size_small=300),
+        "stages": dict_stages(SUBSTR, 120, 20, floors={"substr:repeated_in_member": 30, "substr:absent": 30}),
         "rule": "case as C01 on FMINDEX (BWT sampling >=1; sampling 0 cases only check nothing) and XBW; patterns: "
                 "single bytes, inner substrings, suffixes, prefixes, whole members, absent, repeated; oracle = memmem "
                 "over S. non-trivial = >=1 pattern occurring twice inside one member and >=1 absent pattern",
